@@ -71,7 +71,7 @@ func runCase(r *vf.Run, stage uint64, idx, totalOps, maxG int) bool {
 			wg.Add(1)
 			go func(ei int, e *envSpec) {
 				defer wg.Done()
-				done := r.Watchdog(10*time.Minute, fmt.Sprintf("environment stage=%d case=%d env=%d", stage, idx, ei), func() {
+				done := r.Watchdog(time.Duration(r.N(3, 10))*time.Minute, fmt.Sprintf("environment stage=%d case=%d env=%d", stage, idx, ei), func() {
 					runEnv(r, c, e, ei)
 				})
 				if !done {
@@ -290,6 +290,11 @@ func runEnv(r *vf.Run, c *tcase, e *envSpec, ei int) {
 		// the mount-time root keeps serving lookups too (its own attributes are judged
 		// only by the first reading above)
 		er.roots = append(er.roots, root1)
+	}
+	// Names that no tar entry can create below the root: judged once per environment, so that
+	// every run sees them (the walkers draw them only now and then).
+	for _, nm := range []string{".", "..", ".prefetch.landmark", ".no.prefetch.landmark", "stargz.index.json"} {
+		w0.checkAbsent("", nm)
 	}
 	w0.flush()
 
